@@ -76,6 +76,9 @@ pub enum Dir {
     SkelCfg(String),
     /// call/type path rewrite: a path whose text equals A (after crate:: stripping) is replaced by B (declared per unit, R5)
     RewritePath(String, String),
+    /// `@@inline fn NAME` / `@@inline impl T fn NAME`: a helper of the current @@source that is not under contract is
+    /// expanded at its call sites inside the taken functions (R20)
+    Inline(Vec<String>),
 }
 
 pub fn parse(text: &str, cdir: &str) -> Result<Vec<Dir>, String> {
@@ -121,6 +124,7 @@ pub fn parse(text: &str, cdir: &str) -> Result<Vec<Dir>, String> {
                 if parts.len() != 2 { return Err(format!("spec line {}: @@rewrite-path A B", i)); }
                 out.push(Dir::RewritePath(parts[0].to_string(), parts[1].to_string()));
             }
+            "inline" => out.push(Dir::Inline(arg.split_whitespace().map(|x| x.to_string()).collect())),
             "rewrite-method" => {
                 let parts: Vec<&str> = arg.split_whitespace().collect();
                 if parts.len() < 2 { return Err(format!("spec line {}: @@rewrite-method NAME FN [mut]", i)); }
